@@ -3,6 +3,7 @@ package main
 import (
 	"fmt"
 	"os"
+	"runtime/debug"
 
 	"verif/mc/props"
 )
@@ -31,6 +32,10 @@ var checks = map[string]func(tier string) int{
 }
 
 func main() {
+	// explored states share structure with all their ancestors, so the live heap grows with the number of states: keep the
+	// garbage on top of it small, and let the collector work harder near the limit instead of being killed
+	debug.SetGCPercent(50)
+	debug.SetMemoryLimit(40 << 30)
 	if len(os.Args) >= 3 && os.Args[1] == "helper" && os.Args[2] == "export-default" {
 		props.HelperExportDefault()
 		return
